@@ -37,6 +37,28 @@ def _replay_exact(fname):
     return rp
 
 
+def _replay_mixed(fname):
+    def rp(m, ctx, ob):
+        def sample(t):
+            # a concrete value of the operand's type in the counter-model (the contract is about types only)
+            for test, txt in ((V.is_flt, "1.5"), (V.is_dec, "Decimal('1.5')"), (V.is_frac, "Fraction(1, 3)"), (V.is_int, "7")):
+                if m.bool(test(t)):
+                    return txt
+            return "7"
+
+        xs, ys = sample(ctx.x), sample(ctx.y)
+        return (
+            "from fractions import Fraction\nfrom decimal import Decimal\nfrom basilisp.lang import numbers\n"
+            f"x, y = {xs}, {ys}\n"
+            f"r = numbers.{fname}(x, y)\n"
+            "want = float if isinstance(x, float) or isinstance(y, float) else Decimal\n"
+            f"print('{fname}', repr(x), repr(y), '->', repr(r), '; expected a', want.__name__)\n"
+            "print('REPRODUCED' if type(r) is not want else 'not reproduced')\n"
+        )
+
+    return rp
+
+
 def build(active_known=frozenset()):
     pack = Pack("C20", "Integer and ratio arithmetic is exact and quot/rem/mod obey their identities")
     pack.trust("fractions.Fraction keeps lowest terms with positive denominator (normal form); math.trunc/math.floor on Fraction are exact")
@@ -78,6 +100,7 @@ def build(active_known=frozenset()):
                 V.is_dec(a.result),
             ),
         )
+        c2.replay(_replay_mixed(fname))
 
     # divide: by zero raises ZeroDivisionError for exact operands
     c = pack.contract("basilisp.lang.numbers:divide")
@@ -99,6 +122,7 @@ def build(active_known=frozenset()):
         "float if either operand is a float, else Decimal",
         lambda a: z3.If(z3.Or(V.is_flt(a.x), V.is_flt(a.y)), V.is_flt(a.result), V.is_dec(a.result)),
     )
+    c.replay(_replay_mixed("divide"))
 
     # trunc ---------------------------------------------------------------------------
     c = pack.contract("basilisp.lang.numbers:trunc")
